@@ -310,6 +310,21 @@ def shard_signer(ctx: Ctx) -> None:
             o = outcome(call)
             history.append((entry, o[0] if o[0] == "ok" else type(o[1]).__name__))
             ctx.mon(f"signer-model:{kind}")
+            if alive and kind in ("dsa", "ssa") and entry in ("sign", "sign_"):
+                # a live signer is a pure function of (key, message): whatever was switched, entered or signed before,
+                # it answers, and it answers what the module-level function answers for the same key
+                mod = dsa if kind == "dsa" else ssa
+                free = getattr(mod, entry)
+                want = outcome(lambda: free(msg, key) if kind == "dsa" else free(msg, key, bytes(32)))
+                ctx.mon(f"signer-vs-function:{kind}")
+                if o[0] == "raise" and want[0] == "ok":
+                    ctx.violation(f"live-signer-refused:{kind}:{type(o[1]).__name__}", f"{kind}.Signer.{entry} raised {o[1]!r} while alive; history {history[-6:]}",
+                                  {"history": history})
+                elif o[0] == "ok" and want[0] == "ok":
+                    a, b = _canon(o[1]), _canon(want[1].serialize() if hasattr(want[1], "serialize") and not hasattr(o[1], "serialize") else want[1])
+                    if a != b:
+                        ctx.violation(f"signer-answer-depends-on-history:{kind}", f"{kind}.Signer.{entry} = {str(a)[:100]}, {kind}.{entry} = {str(b)[:100]}; history {history[-6:]}",
+                                      {"history": history})
             signing_entry = entry in ("sign", "sign_", "sign_psbt", "sign_ecdsa", "sign_message")
             if o[0] == "ok" and entry == "sign_ecdsa" and o[1] is None:
                 continue   # "not my key": no signature was made
